@@ -25,12 +25,17 @@ LEVEL_TEXT = (
     "SecurityError; console / pinauth / printpin are dispatched only under their documented decisions and from nowhere else; "
     "check_host_trust is host_is_trusted(Host header, self.trusted_hosts); (R20.3) the submitted PIN is compared only after "
     "the failure counter was found to be at most ten, the cookie is issued and `auth` reported only for a trusted cookie or a "
-    "matching PIN, a wrong PIN and a forged cookie each increment the counter (strict +1 under its lock), the counter is "
-    "reset only by a matching PIN; (R20.4) cookie trust is truthy only with the PIN off or after hash equality and the strict "
-    "expiry comparison, a hash mismatch yields None, malformed values yield False; (R20.5) host_is_trusted is truthy only "
+    "matching PIN, the issued cookie is `<int(time.time())>|<hash_pin(self.pin)>` under self.pin_cookie_name (the value "
+    "check_pin_trust accepts), a wrong PIN and a forged cookie each increment the counter (strict +1 under its lock), the "
+    "counter is reset only by a matching PIN; (R20.4) cookie trust is truthy only with the PIN off or after equality of the "
+    "cookie's hash part with hash_pin(self.pin) and the strict expiry comparison, a hash mismatch yields None, malformed "
+    "values yield False, and hash_pin is a function of the whole PIN: on every path its parameter reaches the returned value "
+    "unabridged through the digest input (not a constant, a string that merely spells the name, a shadowed name, a slice or "
+    "the length of the PIN, an empty digest prefix); (R20.5) host_is_trusted is truthy only "
     "after equality or a dot-anchored suffix test of a dot-prefixed entry, both sides pass the same normalisation including "
     "the idna codec, port stripping is bracket-aware, every exception of the idna codec yields False, and get_host / "
-    "Request.host / wsgi.get_host enforce the list with SecurityError. The strength of PIN and secret is not decided."
+    "Request.host / wsgi.get_host enforce the list with SecurityError. The strength of PIN, secret, salt and digest algorithm (collision resistance, length of the "
+    "kept digest prefix beyond non-empty) is not decided."
 )
 TRUSTED = [
     "CPython ast",
@@ -94,8 +99,8 @@ def run(ctx: Ctx) -> None:
     for rid, text in {
         "R20.1": "frame evaluation happens only in execute_command, which the dispatcher calls only after deciding evalex & cmd is not None & frame is not None & secret equality & check_pin_trust in the __debugger__ == 'yes' branch (on every path, through helpers); inside execute_command only past the host check",
         "R20.2": "in execute_command, display_console, pin_auth, log_pin_request nothing happens before a positive check_host_trust and a negative one returns SecurityError; dispatch decisions of console / pinauth / printpin; check_host_trust is host_is_trusted(Host header, trusted_hosts)",
-        "R20.3": "the PIN is compared only after `failed <= 10` was decided; cookie / auth only for a trusted cookie or a matching PIN; wrong PIN and forged cookie increment the counter (strict +1 under its lock); counter reset only by a matching PIN",
-        "R20.4": "check_pin_trust is truthy only with the PIN off or after hash equality and the strict expiry comparison; hash mismatch -> None; malformed cookie -> False",
+        "R20.3": "the PIN is compared only after `failed <= 10` was decided; cookie / auth only for a trusted cookie or a matching PIN; the issued cookie is `<int(time.time())>|<hash_pin(self.pin)>`; wrong PIN and forged cookie increment the counter (strict +1 under its lock); counter reset only by a matching PIN",
+        "R20.4": "check_pin_trust is truthy only with the PIN off or after hash equality and the strict expiry comparison; hash mismatch -> None; malformed cookie -> False; hash_pin depends on the whole PIN on every path",
         "R20.5": "host_is_trusted: truthy only after equality or a dot-anchored suffix test of a dot-prefixed entry; same normalisation (with idna) both sides; bracket-aware port strip; idna errors -> False; get_host raises SecurityError; Request.host / wsgi.get_host forward trusted_hosts",
     }.items():
         ctx.rule(rid, text)
@@ -387,6 +392,7 @@ def _pin_auth_rules(ctx: Ctx) -> None:
     bad = [(p, e) for p, e in cookies if not authenticated(p.decided(e.pc_len), p, e.pc_len)]
     p0, e0 = (bad or cookies)[0]
     ctx.ob("R20.3", "the PIN cookie is issued only for a trusted cookie or a matching PIN below the threshold", not bad, f"{len(cookies)} path(s) issue it" + (f"; one under {_cond(p0.decided(e0.pc_len))}" if bad else ""), pa, e0.node, "cookie only under auth")
+    _issued_cookie(ctx, pa, cookies)
     by_pin = [1 for p, e in cookies if p.decided(e.pc_len).get(T) is not True]
     if not by_pin:
         raise AnalysisError("pin_auth: no path issues the cookie after a PIN comparison (authentication is not understood)")
@@ -454,6 +460,60 @@ def _pin_auth_rules(ctx: Ctx) -> None:
     ctx.ob("R20.3", "the failure counter is reset only by a matching PIN", not reset_bad, "; ".join(sorted(set(reset_bad))[:2]), pa, pa.node, "counter reset")
     where = app.methods.get("_fail_pin_auth", pa)
     ctx.ob("R20.3", "every failure strictly increments the shared counter under its lock", not inc_bad and n_inc > 0, "; ".join(sorted(set(inc_bad))[:2]) or f"{n_inc} increment(s) on the explored paths, each `value = value + 1` with read and write under get_lock()", where, inc_node or where.node, "counter increment")
+
+
+def _unwrap_text(x: Term) -> Term:
+    """str(x) / f"{x}" / f"{x:d}" / x.decode() of a value is the value (as far as the written text goes)."""
+    while True:
+        if x[0] == "call" and x[1] == N("str") and len(x[2]) == 1 and not x[3]:
+            x = x[2][0]
+        elif x[0] == "fmt" and x[3] in ("", "d") and x[2] in (-1, ord("s")):
+            x = x[1]
+        else:
+            return x
+
+
+def _issued_cookie(ctx: Ctx, pa: FuncInfo, cookies: list[tuple[Path, Ev]]) -> None:
+    """the cookie pin_auth writes is the one check_pin_trust accepts: named self.pin_cookie_name, with the value
+    `<int(time.time())>|<hash_pin(self.pin)>` (taken apart at the first '|' as check_pin_trust does)."""
+    WANT_HASH = C(N("hash_pin"), A(SELF, "pin"))
+    WANT_TS = C(N("int"), C(A(N("time"), "time")))
+    bad: list[str] = []
+    node = cookies[0][1].node
+    seen = ""
+    for p, e in cookies:
+        args, kw = e.term[2], dict(e.term[3])
+        name = args[0] if args else kw.get("key")
+        value = args[1] if len(args) > 1 else kw.get("value")
+        if name is None or value is None:
+            raise AnalysisError(f"pin_auth: set_cookie without an explicit name and value: `{show(e.term)}`")
+        seen = seen or show(value)
+        if name != A(SELF, "pin_cookie_name"):
+            bad.append(f"the cookie is named `{show(name)}`, check_pin_trust reads self.pin_cookie_name")
+            node = e.node
+        if value[0] not in ("concat", "const") and not (value[0] == "call" and value[1] == N("hash_pin")):
+            raise AnalysisError(f"pin_auth: the value of the issued cookie is not understood: `{show(value)}`")
+        parts = list(value[1]) if value[0] == "concat" else [value]
+        cut = next((i for i, q in enumerate(parts) if is_const(q) and isinstance(q[2], str) and "|" in q[2]), None)
+        if cut is None:
+            bad.append(f"the issued value `{show(value)}` has no '|' between timestamp and hash")
+            node = e.node
+            continue
+        pre, _, post = parts[cut][2].partition("|")
+        head = [_unwrap_text(q) for q in parts[:cut]] + ([const(pre)] if pre else [])
+        tail = ([const(post)] if post else []) + [_unwrap_text(q) for q in parts[cut + 1 :]]
+        if tail != [WANT_HASH]:
+            bad.append(f"the hash part of the issued cookie is `{' + '.join(show(q) for q in tail) or repr('')}`, check_pin_trust compares it with hash_pin(self.pin)")
+            node = e.node
+        if head != [WANT_TS]:
+            if any(mentions(q, WANT_TS[2][0]) for q in head):
+                raise AnalysisError(f"pin_auth: the timestamp part of the issued cookie is not understood: `{' + '.join(show(q) for q in head)}`")
+            bad.append(f"the timestamp part of the issued cookie is `{' + '.join(show(q) for q in head) or repr('')}`, not the current time int(time.time())")
+            node = e.node
+    ctx.ob(
+        "R20.3", "the issued cookie is `<int(time.time())>|<hash_pin(self.pin)>` under self.pin_cookie_name (what check_pin_trust accepts, and nothing fresher or weaker)", not bad,
+        "; ".join(sorted(set(bad))[:2])[:600] or f"{len(cookies)} path(s) issue `{seen}`", pa, node, "issued cookie value",
+    )
 
 
 # ---------------------------------------------------------------------------------------------------------------
@@ -532,8 +592,137 @@ def _pin_trust_rules(ctx: Ctx) -> None:
     badm = [f"`return {show(p.value)}`" for p in mism if p.value != NONE]
     # (when the hash is never compared the truthy-verdict obligation above has already failed)
     ctx.ob("R20.4", "a cookie with a wrong hash yields None (so that pin_auth counts it)", bool(mism) and not badm, "; ".join(sorted(set(badm))) or f"{len(mism)} path(s) decide the hash comparison negatively", cp, (mism[0].node if mism else None) or cp.node, "hash mismatch verdict")
+    _hash_rules(ctx)
+
+
+# ---------------------------------------------------------------------------------------------------------------
+# R20.4: hash_pin - on every path the returned value is a function of the whole PIN (through the digest input)
+
+_PASS_METHODS = {"encode", "decode", "hexdigest", "digest", "hex", "copy"}  # value-preserving / digest-reading methods
+_PASS_FUNCS = {"str", "bytes", "bytearray", "repr", "ascii", "memoryview"}
+_LOSSY_FUNCS = {"len", "bool", "type", "isinstance", "callable"}
+_HASH_MODULES = {"hashlib", "hmac"}
+_CODEC_MODULES = {"binascii", "base64"}
+
+
+def _combine(vs: list[tuple[str, str]]) -> tuple[str, str]:
+    for want in ("whole", "unknown", "part"):
+        for v in vs:
+            if v[0] == want:
+                return v
+    return ("none", "")
+
+
+def _depends(x: Term, P: Term, imports: dict[str, str], updates: dict[Term, list[Term]]) -> tuple[str, str]:
+    """how the term ``x`` depends on the value ``P``:
+    whole   - P enters unabridged (as itself, concatenated, encoded, or as the input of a digest - a non-empty slice of
+              a digest still depends on all of its input);
+    part    - only a piece or a property of P enters (a slice of P itself, len(P), a comparison);
+    none    - x does not depend on P (a constant, a string that merely spells the name, a shadowed name);
+    unknown - P occurs in a construct that is not modelled."""
+
+    def origin(f: Term) -> str:
+        if f[0] == "attr" and f[1][0] == "name":
+            return imports.get(f[1][1], "").split(".")[0]
+        if f[0] == "name":
+            o = imports.get(f[1], "")
+            return o.split(".")[0] if "." in o else ""
+        return ""
+
+    def is_hash(t_: Term) -> bool:
+        return t_[0] == "call" and origin(t_[1]) in _HASH_MODULES
+
+    def dep(t_: Term) -> tuple[str, str]:
+        if t_ == P:
+            return ("whole", "")
+        if not mentions(t_, P) and not any(is_hash(s) and updates.get(s) for s in subterms(t_)):
+            return ("none", "")
+        k = t_[0]
+        if k == "concat":
+            return _combine([dep(q) for q in t_[1]])
+        if k == "binop" and t_[1] == "+":
+            return _combine([dep(t_[2]), dep(t_[3])])
+        if k == "fmt":
+            return dep(t_[1]) if t_[3] == "" else ("unknown", f"`{show(t_)}` (format spec)")
+        if k == "call":
+            f = t_[1]
+            if is_hash(t_):
+                return _combine([dep(a) for a in t_[2]] + [dep(v) for _, v in t_[3]] + [dep(a) for a in updates.get(t_, [])])
+            if f[0] == "attr" and f[2] in _PASS_METHODS:
+                return dep(f[1])
+            if f[0] == "name" and f[1] in _PASS_FUNCS and t_[2]:
+                return dep(t_[2][0])
+            if origin(f) in _CODEC_MODULES and t_[2]:
+                return dep(t_[2][0])
+            if f[0] == "name" and f[1] in _LOSSY_FUNCS:
+                return ("part", f"only `{show(t_)}` enters")
+            return ("unknown", f"`{show(t_)}`")
+        if k == "sub":
+            base = dep(t_[1])
+            if base[0] != "whole":
+                return base if base[0] != "none" or not mentions(t_[2], P) else ("unknown", f"`{show(t_)}`")
+            hashed = any(is_hash(s) for s in subterms(t_[1]))
+            idx = t_[2]
+            if idx[0] != "slice":
+                return ("whole", "") if hashed else ("part", f"only `{show(t_)}` enters")
+            lo, hi, step = idx[1], idx[2], idx[3]
+            if not (is_const(lo) and is_const(hi) and is_const(step)):
+                return ("unknown", f"`{show(t_)}` (slice bounds are not constants)")
+            lo_v, hi_v, st_v = lo[2], hi[2], step[2]
+            if hashed:
+                empty = hi_v == 0 or (isinstance(hi_v, int) and hi_v >= 0 and isinstance(lo_v, int) and lo_v >= hi_v)
+                return ("none", f"`{show(t_)}` keeps nothing of the digest") if empty else ("whole", "")
+            if lo_v in (None, 0) and hi_v is None and st_v in (None, 1):
+                return ("whole", "")
+            return ("part", f"only `{show(t_)}` enters")
+        if k in ("cmp", "not"):
+            return ("part", f"only `{show(t_)}` enters")
+        return ("unknown", f"`{show(t_)}`")
+
+    return dep(x)
+
+
+def _hash_rules(ctx: Ctx) -> None:
+    repo = ctx.repo
     hp = repo.func("debug.hash_pin")
-    ctx.ob("R20.4", "hash_pin is a salted sha1 prefix of the PIN", "sha1" in norm(hp.node) and "pin" in norm(hp.node), "", hp, hp.node, "hash_pin")
+    ctx.saw(hp)
+    if not hp.params:
+        raise AnalysisError("hash_pin takes no parameter")
+    P: Term = ("param", hp.params[0])
+    ex = explore(hp, ROLE)
+    imports = dict(hp.module.imports)
+    imports.update(hp.module.local_imports(hp.node))
+    for q in sorted(ex.inlined):
+        fi = repo.try_func(f"debug.{q}")
+        if fi is not None:
+            ctx.saw(fi)
+            imports.update(fi.module.local_imports(fi.node))
+    bad: list[str] = []
+    n_ret = 0
+    node = None
+    shown = ""
+    for p in ex.paths:
+        if p.outcome != "return":
+            continue
+        n_ret += 1
+        updates: dict[Term, list[Term]] = {}
+        for e in p.events:
+            if e.kind == "call" and e.term[1][0] == "attr" and e.term[1][2] == "update":
+                updates.setdefault(e.term[1][1], []).extend(e.term[2])
+        verdict, note = _depends(p.value if p.value is not None else NONE, P, imports, updates)
+        shown = shown or show(p.value)
+        if verdict == "unknown":
+            raise AnalysisError(f"hash_pin: how the returned value depends on `{hp.params[0]}` is not understood: {note} in `return {show(p.value)}`")
+        if verdict != "whole":
+            node = node or p.node
+            why = "does not depend on the PIN (the same value for every PIN)" if verdict == "none" else "depends only on a part of the PIN"
+            bad.append(f"`return {show(p.value)}` under {p.describe()} {why}" + (f": {note}" if note else ""))
+    if not n_ret:
+        raise AnalysisError("hash_pin: no returning path")
+    ctx.ob(
+        "R20.4", "hash_pin(pin) is a function of the whole PIN on every path (the parameter reaches the returned value unabridged, through the digest input)", not bad,
+        "; ".join(sorted(set(bad))[:2])[:700] or f"{n_ret} returning path(s), e.g. `return {shown}`: the parameter `{hp.params[0]}` enters unabridged", hp, node or hp.node, "hash_pin",
+    )
 
 
 # ---------------------------------------------------------------------------------------------------------------
